@@ -12,7 +12,11 @@ use crate::w3ops::*;
 
 pub const BELIEF_CAP: usize = 256;
 pub const MAX_FREE: usize = 5;
-pub const MAX_BATCH: usize = 64;
+pub const MAX_BATCH: usize = 70_000;
+/// from this queue length on the complete observation is taken only at every SPARSE_EVERY-th submission (and always
+/// before the step / a trading switch): the state expected in between is tracked and compared at the next one
+pub const SPARSE_FROM: usize = 96;
+pub const SPARSE_EVERY: usize = 64;
 pub const LEAF_CAP: usize = 20_000;
 
 #[derive(Clone, Debug, PartialEq)]
@@ -138,107 +142,149 @@ struct Search<'a> {
     aborted: bool,
     /// leaves whose model state hit a `poisoned` condition (key-collision twin predicts an abort)
     pub poisoned_paths: usize,
+    /// indices of the free (cancel / modify) instructions of the batch
+    free_idx: Vec<usize>,
 }
 
 impl<'a> Search<'a> {
-    fn dfs(&mut self, i: usize, ms: &[Model], used: &mut Vec<bool>, sched: &mut Vec<usize>) {
-        if self.aborted {
-            return;
-        }
+    /// Apply instruction `k` at position `i` to `nm`; false = pruned (the trades / terminations the model stamps with
+    /// start+i are not exactly the observed ones, or the defect twin predicts an abort).
+    fn apply_checked(&mut self, nm: &mut Vec<Model>, i: usize, k: usize) -> bool {
         let so = self.so;
-        if i == so.n {
-            self.leaves += 1;
-            if self.leaves > LEAF_CAP {
-                self.aborted = true;
-                return;
-            }
-            let mut ms: Vec<Model> = ms.to_vec();
-            for m in ms.iter_mut() {
-                m.set_time(so.start + so.step_size);
-            }
-            for (a, m) in ms.iter().enumerate() {
-                if m.poisoned.is_some() || m.obs(self.levels, false).diff(&so.post[a]).is_some() {
-                    return;
-                }
-            }
-            self.out.push(Survivor { models: ms, schedule: sched.clone() });
-            return;
+        let ins = &self.pending[k];
+        let a = ins.asset();
+        for m in nm.iter_mut() {
+            m.set_time(so.start + i as u64);
         }
-        let cands: Vec<usize> = match so.pins[i] {
-            Some(k) => {
-                if used[k] {
-                    return;
+        let before_trades = nm[a].trades.len();
+        let before_status = nm[a].orders[ins.target()].o.status;
+        apply_instr(nm, ins);
+        if nm[a].poisoned.is_some() {
+            self.poisoned_paths += 1;
+            return false;
+        }
+        // prune: trades stamped start+i must be exactly the ones this instruction produces
+        for b in 0..nm.len() {
+            if b == a {
+                if nm[a].trades[before_trades..] != so.trades_at[i][a][..] {
+                    return false;
                 }
-                vec![k]
+            } else if !so.trades_at[i][b].is_empty() {
+                return false;
             }
-            None => {
-                let mut c: Vec<usize> = vec![];
-                for k in 0..so.n {
-                    if !used[k] && !self.pending[k].is_new() && !c.iter().any(|j| self.pending[*j] == self.pending[k]) {
-                        c.push(k);
-                    }
-                }
-                c
+        }
+        // prune: orders that ended at start+i must be exactly the ones this instruction terminated
+        let mut ended: Vec<(usize, usize)> = vec![];
+        let tid = ins.target();
+        if !terminal(before_status) && terminal(nm[a].orders[tid].o.status) {
+            ended.push((a, tid));
+        }
+        for t in &nm[a].trades[before_trades..] {
+            if nm[a].orders[t.passive].o.status == FILLED && !ended.contains(&(a, t.passive)) {
+                ended.push((a, t.passive));
+            }
+        }
+        ended.sort();
+        ended == so.ended_at[i]
+    }
+
+    /// Depth-first search over positions. Positions with a single candidate (pinned by an arrival time, or one free
+    /// instruction left) are applied in place on the working copy, so the recursion depth and the number of model
+    /// clones are bounded by the number of free (unpinned) instructions, not by the batch size.
+    fn dfs(&mut self, mut i: usize, mut cur: Vec<Model>, used: &mut Vec<bool>, sched: &mut Vec<usize>) {
+        let so = self.so;
+        let sched_len0 = sched.len();
+        let undo = |used: &mut Vec<bool>, sched: &mut Vec<usize>| {
+            while sched.len() > sched_len0 {
+                let k = sched.pop().unwrap();
+                used[k] = false;
             }
         };
-        for k in cands {
-            let ins = &self.pending[k];
-            let a = ins.asset();
-            let mut nm: Vec<Model> = ms.to_vec();
-            for m in nm.iter_mut() {
-                m.set_time(so.start + i as u64);
+        loop {
+            if self.aborted {
+                undo(used, sched);
+                return;
             }
-            let before_trades = nm[a].trades.len();
-            let before_status = nm[a].orders[ins.target()].o.status;
-            apply_instr(&mut nm, ins);
-            if nm[a].poisoned.is_some() {
-                self.poisoned_paths += 1;
-                continue;
-            }
-            // prune: trades stamped start+i must be exactly the ones this instruction produces
-            let mut ok = true;
-            for b in 0..nm.len() {
-                if b == a {
-                    if nm[a].trades[before_trades..] != so.trades_at[i][a][..] {
+            if i == so.n {
+                self.leaves += 1;
+                if self.leaves > LEAF_CAP {
+                    self.aborted = true;
+                    undo(used, sched);
+                    return;
+                }
+                for m in cur.iter_mut() {
+                    m.set_time(so.start + so.step_size);
+                }
+                let mut ok = true;
+                for (a, m) in cur.iter().enumerate() {
+                    if m.poisoned.is_some() || m.obs(self.levels, false).diff(&so.post[a]).is_some() {
                         ok = false;
+                        break;
                     }
-                } else if !so.trades_at[i][b].is_empty() {
-                    ok = false;
                 }
+                if ok {
+                    self.out.push(Survivor { models: cur, schedule: sched.clone() });
+                }
+                undo(used, sched);
+                return;
             }
-            if !ok {
+            let cands: Vec<usize> = match so.pins[i] {
+                Some(k) => {
+                    if used[k] {
+                        undo(used, sched);
+                        return;
+                    }
+                    vec![k]
+                }
+                None => {
+                    let mut c: Vec<usize> = vec![];
+                    for &k in self.free_idx.iter() {
+                        if !used[k] && !c.iter().any(|j| self.pending[*j] == self.pending[k]) {
+                            c.push(k);
+                        }
+                    }
+                    c
+                }
+            };
+            if cands.is_empty() {
+                undo(used, sched);
+                return;
+            }
+            if cands.len() == 1 {
+                let k = cands[0];
+                if !self.apply_checked(&mut cur, i, k) {
+                    undo(used, sched);
+                    return;
+                }
+                used[k] = true;
+                sched.push(k);
+                i += 1;
                 continue;
             }
-            // prune: orders that ended at start+i must be exactly the ones this instruction terminated
-            let mut ended: Vec<(usize, usize)> = vec![];
-            let tid = ins.target();
-            if !terminal(before_status) && terminal(nm[a].orders[tid].o.status) {
-                ended.push((a, tid));
-            }
-            for t in &nm[a].trades[before_trades..] {
-                if nm[a].orders[t.passive].o.status == FILLED && !ended.contains(&(a, t.passive)) {
-                    ended.push((a, t.passive));
+            for k in cands {
+                let mut nm = cur.clone();
+                if !self.apply_checked(&mut nm, i, k) {
+                    continue;
                 }
+                used[k] = true;
+                sched.push(k);
+                self.dfs(i + 1, nm, used, sched);
+                sched.pop();
+                used[k] = false;
             }
-            ended.sort();
-            if ended != so.ended_at[i] {
-                continue;
-            }
-            used[k] = true;
-            sched.push(k);
-            self.dfs(i + 1, &nm, used, sched);
-            sched.pop();
-            used[k] = false;
+            undo(used, sched);
+            return;
         }
     }
 }
 
 /// All (model state, schedule) pairs that explain the observed step starting from belief `b`.
 pub fn search(b: &[Model], pending: &[Instr], so: &StepObs, levels: usize) -> (Vec<Survivor>, bool, usize) {
-    let mut s = Search { so, pending, levels, out: vec![], leaves: 0, aborted: false, poisoned_paths: 0 };
+    let free_idx: Vec<usize> = (0..pending.len()).filter(|k| !pending[*k].is_new()).collect();
+    let mut s = Search { so, pending, levels, out: vec![], leaves: 0, aborted: false, poisoned_paths: 0, free_idx };
     let mut used = vec![false; so.n];
     let mut sched = Vec::with_capacity(so.n);
-    s.dfs(0, b, &mut used, &mut sched);
+    s.dfs(0, b.to_vec(), &mut used, &mut sched);
     (s.out, s.aborted, s.poisoned_paths)
 }
 
